@@ -235,6 +235,9 @@ func (l *PartitionLog) RestoreFromS3(ctx context.Context) (int64, error) {
 
 // AppendBatch writes a record batch to the log, updating offsets and flushing as needed.
 func (l *PartitionLog) AppendBatch(ctx context.Context, batch RecordBatch) (*AppendResult, error) {
+	if err := batch.ValidateForAppend(); err != nil {
+		return nil, err
+	}
 	l.mu.Lock()
 	baseOffset := l.nextOffset
 	PatchRecordBatchBaseOffset(&batch, baseOffset)
